@@ -21,3 +21,111 @@ structure GenField where
   deriving DecidableEq, Repr
 
 end Sif.Gen
+
+/-!
+  Part 2: a thin model of "collection under prefix" modules (DESIGN 4/C14).
+
+  The store of a module is a key-sorted association list over byte strings (IAVL iteration order =
+  lexicographic byte order).  A collection has a prefix, a key function (record ↦ full store key),
+  and an encoding with its decoder.  `exportC` iterates the prefix in key order and decodes;
+  `initC` folds `set` under the key function — as the eight genesis files do.
+-/
+namespace Sif.Gen
+
+abbrev Key := List Nat
+abbrev Val := List Nat
+
+/-- lexicographic (byte) order of store keys -/
+def klt : Key → Key → Bool
+  | [], [] => false
+  | [], _ :: _ => true
+  | _ :: _, [] => false
+  | a :: as, b :: bs => if a < b then true else if a = b then klt as bs else false
+
+abbrev Store := List (Key × Val)
+
+/-- `store.Set`: replace the value of an existing key, else insert at the key's place in byte order -/
+def Store.set : Store → Key → Val → Store
+  | [], k, v => [(k, v)]
+  | (k', v') :: r, k, v =>
+    if k = k' then (k, v) :: r
+    else if klt k k' then (k, v) :: (k', v') :: r
+    else (k', v') :: Store.set r k v
+
+def isPrefix (p k : Key) : Bool := p.isPrefixOf k
+
+/-- the part of the store under a prefix (what `KVStorePrefixIterator` walks, in order) -/
+def under (p : Key) (s : Store) : Store := s.filter (fun e => isPrefix p e.1)
+
+/-- strictly increasing keys (a well-formed IAVL store) -/
+def Sorted (s : Store) : Prop := s.Pairwise (fun a b => klt a.1 b.1 = true)
+
+instance (s : Store) : Decidable (Sorted s) := by unfold Sorted; infer_instance
+
+structure Coll (α : Type) where
+  pfx : Key
+  /-- full store key of a record -/
+  key : α → Key
+  enc : α → Val
+  dec : Val → Option α
+
+def Coll.entry {α : Type} (c : Coll α) (a : α) : Key × Val := (c.key a, c.enc a)
+
+/-- `ExportGenesis` of one collection: iterate the prefix, decode every value -/
+def exportC {α : Type} (c : Coll α) (s : Store) : List α := (under c.pfx s).filterMap (fun e => c.dec e.2)
+
+/-- `InitGenesis` of one collection: `Set` every record under the key computed from it -/
+def initC {α : Type} (c : Coll α) (items : List α) (s0 : Store) : Store :=
+  items.foldl (fun s a => s.set (c.key a) (c.enc a)) s0
+
+/-- every record under the prefix decodes, and is stored under the key computed from its own
+    fields with its own encoding (what the keepers' `Set…` functions establish) -/
+def WF {α : Type} (c : Coll α) (s : Store) : Prop :=
+  ∀ e ∈ under c.pfx s, ∃ a, c.dec e.2 = some a ∧ c.entry a = e
+
+/-- a document's items: decodable, keyed under the collection's prefix -/
+def ItemsOK {α : Type} (c : Coll α) (g : List α) : Prop :=
+  ∀ a ∈ g, c.dec (c.enc a) = some a ∧ isPrefix c.pfx (c.key a) = true
+
+/-- items in strictly increasing key order (what an export produces) -/
+def KeySorted {α : Type} (c : Coll α) (g : List α) : Prop := g.Pairwise (fun a b => klt (c.key a) (c.key b) = true)
+
+/-! ### key functions of the Sifchain modules (bytes as numbers; `_` = 95) -/
+
+def us : Nat := 95
+
+/-- `fmt.Sprintf("%s_%s", a, b)` -/
+def joinU (a b : List Nat) : List Nat := a ++ us :: b
+
+/-- clp `GetPoolKey(symbol, "rowan")` = 0x00 ‖ symbol_rowan -/
+def poolKey (rowan sym : List Nat) : Key := 0 :: joinU sym rowan
+/-- clp `GetLiquidityProviderKey(symbol, address)` = 0x01 ‖ symbol_address -/
+def lpKey (x : List Nat × List Nat) : Key := 1 :: joinU x.1 x.2
+/-- admin `GetAdminAccountKey` = 0x01 ‖ type_address -/
+def adminKey (x : List Nat × List Nat) : Key := 1 :: joinU x.1 x.2
+/-- dispensation `GetUserClaimKey` = 0x02 ‖ address_type -/
+def claimKey (x : List Nat × List Nat) : Key := 2 :: joinU x.1 x.2
+/-- dispensation `GetDistributionRecordKey` = statusPrefix ‖ name_type_recipient -/
+def recordKey (statusPfx : Nat) (x : List Nat × List Nat × List Nat) : Key := statusPfx :: joinU (joinU x.1 x.2.1) x.2.2
+/-- dispensation `GetDistributionsKey` = 0x01 ‖ name_type_runner -/
+def distributionKey (x : List Nat × List Nat × List Nat) : Key := 1 :: joinU (joinU x.1 x.2.1) x.2.2
+/-- margin `GetMTPKey` = 0x01 ‖ address ‖ 8-byte big-endian id -/
+def mtpKey (x : List Nat × List Nat) : Key := 1 :: (x.1 ++ x.2)
+/-- oracle prophecy key = "\x02_" ‖ id -/
+def prophecyKey (id : List Nat) : Key := 2 :: us :: id
+/-- clp rewards bucket key = "RewardsBucket/value/" ‖ denom ‖ "/" -/
+def bucketKey (pfx : List Nat) (denom : List Nat) : Key := pfx ++ denom ++ [47]
+
+/-! ### epochs: the one stated exception -/
+
+structure Epoch where
+  id : List Nat
+  /-- every other field of EpochInfo -/
+  rest : List Nat
+  startHeight : Nat
+  deriving DecidableEq, Repr
+
+/-- `epochs.InitGenesis`: `epoch.CurrentEpochStartHeight = ctx.BlockHeight()` before `SetEpochInfo` -/
+def Epoch.rebase (h : Nat) (e : Epoch) : Epoch := { e with startHeight := h }
+
+end Sif.Gen
